@@ -104,4 +104,14 @@ Fixpoint lit_vars_typed (fuel : nat) (vs : vars) (t : ty) (l : lit) {struct fuel
          end
      end) t l.
 
+(* AST value nodes as the parsers build them: Int / Float nodes carry their lexeme (or, in SDL defaults, the number) *)
+Fixpoint wf_lit (l : lit) : bool :=
+  match l with
+  | LInt _ v => match v with PStr _ | PInt _ => true | _ => false end
+  | LFloat _ v => match v with PStr _ | PFloat _ => true | _ => false end
+  | LList _ items => (fix go (xs : list lit) : bool := match xs with [] => true | x :: r => wf_lit x && go r end) items
+  | LObj _ fs => (fix go (xs : list (string * lit)) : bool := match xs with [] => true | (_, x) :: r => wf_lit x && go r end) fs
+  | _ => true
+  end.
+
 End Typing.
